@@ -293,7 +293,7 @@ class Ctx:
         under_cut = any(d for _, d in self.facts) or bool(self.cutdefs)
         self.obls.append(Obligation(name, kind, label, self.hyps(), goal, len(self.facts), len(self.cutdefs),
                                     f"{file}:{func}", line, meta or {}, under_cut))
-        if kind == "index-in-range" and self.notes.get("bumps"):
+        if kind not in ("cut-lemma", "ieee-bump-effective", "cover") and self.notes.get("bumps"):
             from .terms import subterm_ids
             ids = subterm_ids([goal])
             for bid, (bt, base, eps) in self.notes["bumps"].items():
